@@ -391,6 +391,17 @@ class SimWorld(World):
             return 1.0
         return float(spec.get("dur", 1.0))
 
+    def job_rc(self, name, spec, env):
+        rcs = spec.get("rcs")
+        if rcs:
+            ep = 0
+            octx = getattr(self, "octx", None)
+            if octx is not None:
+                sub = octx.sub_for_abs(env.get("JADE_RUNTIME_OUTPUT"))
+                ep = sub.epoch if sub is not None else 0
+            return int(rcs[min(ep, len(rcs) - 1)])
+        return int(spec.get("rc", 0))
+
     def job_side_effects(self, job):
         spec = self.jobspec.get(job.name) or {}
         n = int(spec.get("events", 0))
